@@ -53,3 +53,48 @@ Example C04_example :
   /\ quote_impl BPy (eff_of PATH_REQUOTER) [37;55;69] = [126].
 Proof. repeat split; vm_compute; reflexivity. Qed.
 Print Assumptions C04_example.
+
+(** URL level: a canonical string with no authority or a plain lower-case ASCII host name
+    is returned unchanged, str(URL(s)) = s, for EVERY such string.  [reparse_safe] is the
+    condition under which the RFC decomposition inverts printing (a scheme made of
+    lower-case scheme characters, no delimiter of a later component inside an earlier one,
+    the path empty or rooted under an authority; its last two fields exclude the known
+    findings F14 and F15), [path_canon] says the path is canonical for the path requoter
+    and, under an authority, rooted without dot segments; the last hypothesis excludes the
+    known finding F27 (http://h?q is printed http://h/?q).  Authorities with userinfo,
+    ports, IDNA or IP hosts: predicate on the implementation (canonical URL suite). *)
+From Yarl Require Import Model.Url Spec.Rfc3986Split Proofs.RecomposeProofs Proofs.FixedPointProofs Proofs.CanonUrlProofs.
+Theorem C04_canonical_url_unchanged : forall (O : oracles) (B : backend) (sc nl p q f : str),
+  reparse_safe sc nl p q f -> visible (unsplit_result sc nl p q f) -> canonical_authority nl ->
+  path_canon nl p -> canon QRQ q = true -> canon FRQ f = true ->
+  (p = [] -> nl <> [] -> q = [] /\ f = []) ->
+  exists u, encode_url O B (unsplit_result sc nl p q f) = Ok u
+            /\ url_str B u = Ok (unsplit_result sc nl p q f).
+Proof. exact canonical_url_unchanged. Qed.
+Print Assumptions C04_canonical_url_unchanged.
+
+(** non-vacuity: http://example.com/a%20b/c?x=1&y=%C3%A9#f meets every hypothesis *)
+Definition c04_no_oracles : oracles :=
+  mk_oracles (fun s => s) (fun _ => None) (fun _ => None) (fun _ => None) (fun _ => None) (fun _ => None) (fun s => s).
+Example C04_url_example :
+  let sc := [104;116;116;112] in let nl := [101;120;97;109;112;108;101;46;99;111;109] in
+  let p := [47;97;37;50;48;98;47;99] in let q := [120;61;49;38;121;61;37;67;51;37;65;57] in let f := [102] in
+  exists u, encode_url c04_no_oracles BC (unsplit_result sc nl p q f) = Ok u
+            /\ url_str BC u = Ok (unsplit_result sc nl p q f).
+Proof.
+  cbv zeta. apply C04_canonical_url_unchanged.
+  - constructor; try (vm_compute; reflexivity).
+    + right. split; vm_compute; reflexivity.
+    + intros _. right. now eexists.
+    + discriminate.
+  - vm_compute. repeat constructor.
+  - right. split; [|vm_compute; reflexivity]. unfold plain_name.
+    repeat split; try (vm_compute; reflexivity); try discriminate.
+    + intros l Hl. vm_compute in Hl. inversion Hl; subst. vm_compute. reflexivity.
+    + vm_compute. repeat constructor.
+  - split; [vm_compute; reflexivity|]. intros _. split; [right; now eexists|discriminate].
+  - vm_compute. reflexivity.
+  - vm_compute. reflexivity.
+  - discriminate.
+Qed.
+Print Assumptions C04_url_example.
